@@ -7,7 +7,9 @@ const SGR: [&str; 4] = ["\x1b[1m", "\x1b[0m", "\x1b[31m", "\x1b[38;5;42m"];
 /// One line of text with a display width drawn around multiples of the terminal width.
 pub fn gen_line(rng: &mut Rng, w: usize, tag: &str, allow_special: bool) -> String {
     // (multiples of the width up to 3 W, now and then up to 7 W)
-    let k = if rng.chance(1, 5) { rng.below(8) as usize } else { rng.below(4) as usize };
+    // (on terminals of middling width the long multiples are cheap: half of the lines there)
+    let long = if (26..=260).contains(&w) { rng.chance(1, 2) } else { rng.chance(1, 5) };
+    let k = if long { rng.below(8) as usize } else { rng.below(4) as usize };
     let target: usize = match rng.below(12) {
         0 => 0,
         1 => 1,
